@@ -33,10 +33,6 @@ def run(ctx):
         ctx.guard("C13", "init", lambda: piece.initial_state(ctx, prog))
         ctx.guard("C13", "reset", lambda: gen.reset_equals_new(ctx, prog))
         ctx.guard("C13", "reset-side", lambda: gen.reset_side_conditions(ctx, prog))
-        ctx.guard("C13", "summaries", lambda: summary.check(ctx, prog, 'internals::generate::Generator', floor=5))
-        ctx.guard("C13", "path summaries", lambda: summary.check_paths(ctx, prog, 'internals::generate::Generator', floor=2))
-        if c in ("dbg", "unsafe_dbg", "strict_dbg"):
-            ctx.guard("C13", "beliefs", lambda: beliefs.census(ctx, prog, beliefs.SCOPES["C13"][0], floor=beliefs.SCOPES["C13"][1]))
         ctx.guard("C13", "casts", lambda: casts.census(ctx, prog, scope='internals::generate::', floor=3))
         if not c.startswith("unsafe"):
             ctx.guard("C13", "piece", lambda: piece.piece_effects(ctx, prog))
@@ -45,4 +41,8 @@ def run(ctx):
             base = ctx.prog("rel")
             ctx.guard("C13", "mirror", lambda: engine.mirror(ctx, prog))
             ctx.guard("C13", "enginemap", lambda: engine.engine_correspondence(ctx, base, prog))
+        ctx.guard("C13", "summaries", lambda: summary.check(ctx, prog, 'internals::generate::Generator', floor=5))
+        ctx.guard("C13", "path summaries", lambda: summary.check_paths(ctx, prog, 'internals::generate::Generator', floor=2))
+        if c in ("dbg", "unsafe_dbg", "strict_dbg"):
+            ctx.guard("C13", "beliefs", lambda: beliefs.census(ctx, prog, beliefs.SCOPES["C13"][0], floor=beliefs.SCOPES["C13"][1]))
     return ctx.finish(EXPL, ["rustc's compile-time evaluation of MAX_INPUT_SIZE / MIN_RECOMMENDED_INPUT_SIZE", "u64_ilog2 computes floor(log2) (checked arithmetically by the repository's own tests, not here)"])
